@@ -62,3 +62,29 @@ try:
         return n
 except ImportError:
     pass
+
+
+def halo_probe(block):
+    """position-sensitive block function of reach 2 (used to validate the dask contract shim against real dask):
+    out[i, j] = sum_{|di|,|dj| <= 2} (3*di + dj + 7) * block[i+di, j+dj], cells outside the block contribute -7"""
+    h, w = block.shape
+    out = block * 0.0
+    for i in range(h):
+        for j in range(w):
+            tot = 0.0
+            for di in (-2, -1, 0, 1, 2):
+                for dj in (-2, -1, 0, 1, 2):
+                    y, x = i + di, j + dj
+                    if 0 <= y < h and 0 <= x < w:
+                        v = block[y, x]
+                        tot = tot + (3 * di + dj + 7) * (v if v == v else 100.0)
+                    else:
+                        tot = tot - 7.0
+            out[i, j] = tot
+    return out
+
+
+def shape_probe(block):
+    """reveals the block shape a block function is called with"""
+    h, w = block.shape
+    return block * 0.0 + (h * 10 + w)
